@@ -5,10 +5,19 @@ from vlib import *
 from storage import *
 
 
+def real_hash(h):
+    """The model has one shard; model torrent h is real torrent 1 + 16 (h - 1): same shard (info_hash[0] % 16)."""
+    return 1 + 16 * (h - 1)
+
+
 def conv_op(o):
     o = dict(o)
     if "key" in o:
         o["key"] = "k%d" % o["key"]
+    if "h" in o:
+        o["h"] = real_hash(o["h"])
+    if "hs" in o:
+        o["hs"] = [real_hash(h) for h in o["hs"]]
     return o
 
 
@@ -28,7 +37,7 @@ def mutate_reply(evs):
         e = evs[i]
         if e.get("ev") == "call" and e["op"]["kind"] == "scrape":
             m = json.loads(json.dumps(evs))
-            m[i]["reply"] += 5
+            m[i]["reply"][-1] += 5
             return m, "scrape reply+5 at event %d" % i
     return None
 
@@ -53,13 +62,18 @@ def run(ctx):
     res = run_tlc(ctx, "UdpConc_MC", "UdpConc_MC_Q.cfg" if quick else "UdpConc_MC.cfg", workers=8,
                   timeout=1800, coverage=True, extra=["-deadlock"] if False else None)
     require_mc_ok(ctx, res, "UdpConc (linearizable, no lost announce, deadlock-free)")
-    zero = coverage_zero_actions(res["out"], "UdpConc")
+    # ScrLockAll / ScrReadAll belong to the negative control (RecursiveScrape = TRUE) only
+    zero = [a for a in coverage_zero_actions(res["out"], "UdpConc") if a not in ("ScrLockAll", "ScrReadAll")]
     if zero:
         raise ToolError("vacuity: actions never taken: %s" % zero)
     neg = run_tlc(ctx, "UdpConc_MC", "UdpConc_MC_NoGuard.cfg", workers=8, timeout=600)
     if neg["ok"] or not tlc_is_spec_violation(neg):
         raise ToolError("negative control failed: model without the Arc guard was not rejected")
     ctx.stage("negative-control", cfg="UdpConc_MC_NoGuard.cfg", error=neg["error"])
+    neg2 = run_tlc(ctx, "UdpConc_MC", "UdpConc_MC_NegRecursive.cfg", workers=4, timeout=600)
+    if neg2["ok"] or neg2.get("error") != "deadlock":
+        raise ToolError("negative control failed: recursive shard read locking was not found to deadlock")
+    ctx.stage("negative-control", cfg="UdpConc_MC_NegRecursive.cfg", error="deadlock (task-fair RwLock, recursive read)")
     if not quick:
         live = run_tlc(ctx, "UdpConc_MC", "UdpConc_MC_Live.cfg", workers=4, timeout=1200)
         require_mc_ok(ctx, live, "UdpConc termination under weak fairness")
